@@ -181,16 +181,58 @@ def _rename_var(body):
     return tast.from_obj(obj)
 
 
-def classify(ctx, K, body, problems):
-    """Mechanism key of a known finding, or None.  Narrow: the mechanism must be present in the
-    case AND removing it (renaming the variable) must remove every disagreement."""
-    if body is not None and _var_named_var(body):
-        rng = random.Random(12345)
-        other = _rename_var(body)
-        probs, _, _ = compare(_NullCtx(), K, make_printings(other, rng), render=True)
-        if not probs:
-            return 'var-named-var'
-    return None
+_CR_AFTER_REF = re.compile(r'(?:<dtml-|<!--#|%\()in[\x00- ]+([^\x00- ]+)\r')
+_BARE_VAR_VAR = re.compile(r'(?:<dtml-var|<!--#var)[\x00- ]+var [\x00- ]*[^\x00- >-]'
+                           r'|&dtml(?:\.[a-z_.]+)?-var;')
+MECHANISMS = ('var-named-var', 'else-arg-cr')
+
+
+def patterns(source, body):
+    """Known-finding mechanisms whose syntactic pattern occurs in this printing."""
+    out = set()
+    if _BARE_VAR_VAR.search(source) and (body is None or _var_named_var(body)):
+        # <dtml-var var more...>, <!--#var var more...-->, &dtml-var; : the bare name `var`, ONE
+        # blank, further arguments (entities always put one blank)
+        out.add('var-named-var')
+    for m in _CR_AFTER_REF.finditer(source):
+        # an in tag whose reference is directly followed by a carriage return (CR LF line end inside
+        # the tag) and an else tag repeating exactly that reference
+        ref = re.escape(m.group(1))
+        if re.search(r'(?:<dtml-else|<!--#else|%\(else)[\x00- ]+' + ref + r'[\x00- >)-]', source):
+            out.add('else-arg-cr')
+    return out
+
+
+def _reprint(body):
+    """Fresh printings of `body` with every known mechanism taken out of the case."""
+    return make_printings(_rename_var(body), random.Random(12345), style=printer.Style(ws_crlf=0.0))
+
+
+def classify(ctx, K, body, printings, problems):
+    """Mechanism keys of known findings explaining the disagreement ([] = unexplained).
+
+    Narrow by construction:
+      1. the disagreement must be confined to printings that carry the syntactic pattern of a known
+         mechanism: all printings WITHOUT any pattern must agree with each other;
+      2. a mechanism is reported only if a printing carrying its pattern disagrees with a clean one;
+      3. with the known mechanisms taken out of the case (variable renamed, no CR LF inside tags)
+         fresh printings of the same abstract template must not disagree at all."""
+    if body is None:
+        return []
+    pats = {p[0]: patterns(p[2], body) for p in printings}
+    if not any(pats.values()):
+        return []
+    clean = [p for p in printings if not pats[p[0]]]
+    null = _NullCtx()
+    if not clean or compare(null, K, clean)[0]:
+        return []
+    mechs = set()
+    for p in printings:
+        if pats[p[0]] and compare(null, K, [clean[0], p])[0]:
+            mechs |= pats[p[0]]
+    if not mechs or compare(null, K, _reprint(body))[0]:
+        return []
+    return sorted(mechs)
 
 
 class _NullCtx:
@@ -201,26 +243,27 @@ class _NullCtx:
 
 
 # ---------------------------------------------------------------- printing
-def make_printings(body, rng, styles=STYLES):
+def make_printings(body, rng, styles=STYLES, style=None):
     out = []
     for sx in printer.SYNTAXES:
         for i in range(styles):
-            p = printer.print_template(body, sx, rng if i else None)
+            p = printer.print_template(body, sx, rng if i else None, style)
             out.append(('%s/%d' % (sx, i), sx, p.source))
     return out
 
 
 def report(ctx, K, part, body, printings, problems, extra=None):
-    mech = classify(ctx, K, body, problems)
+    mechs = classify(ctx, K, body, printings, problems)
     kinds_ = '+'.join(sorted({p['kind'] for p in problems}))
     case = {'part': part, 'ast': None if body is None else tast.to_obj(body),
             'printings': [list(p) for p in printings]}
     if extra:
         case.update(extra)
     h = abs(hash(json.dumps(case['printings']))) % (10 ** 8)
-    ctx.violation('%s: %s' % (part, problems[0]['what']), case, mech=mech,
-                  key='%s_%s_%08d' % (part, kinds_.replace('/', '-'), h),
-                  detail={'problems': problems[:6]})
+    for mech in (mechs or [None]):
+        ctx.violation('%s: %s' % (part, problems[0]['what']), case, mech=mech,
+                      key='%s_%s_%08d' % (part, kinds_.replace('/', '-'), h),
+                      detail={'problems': problems[:6], 'mechanisms': mechs})
 
 
 # ---------------------------------------------------------------- part A: random ASTs
@@ -339,6 +382,70 @@ def check_mutants(ctx, K, body, rng):
             ctx.table('mutants accepted by all', label)
 
 
+_LEAD = {'html': re.compile(r'</?dtml-'), 'ssi': re.compile(r'<!--#(?:(?:/|[eE][nN][dD]) ?)?'),
+         'epfs': re.compile(r'%\(')}
+STRUCT_MUTATIONS = ('wrong-end-tag', 'deleted-end-tag', 'deleted-start-tag')
+
+
+def structural_mutant(p, which, k):
+    """Apply structural mutation `which` to the k-th block of Printed `p`; None if not applicable.
+
+    The tag lists of the printings of one AST are aligned (same order in every syntax), so the same
+    (which, k) is the same abstract mutation in each syntax.  Every mutant is unbalanced, hence must be
+    rejected by every front end."""
+    closes = [t for t in p.tags if t.role == 'close']
+    if not closes:
+        return None
+    close = closes[k % len(closes)]
+    src = p.source
+    if which == 'deleted-end-tag':
+        return src[:close.start] + src[close.end:]
+    if which == 'deleted-start-tag':
+        op = next(t for t in p.tags if t.role == 'open' and t.node is close.node)
+        return src[:op.start] + src[op.end:]
+    tag = src[close.start:close.end]
+    m = _LEAD[p.syntax].match(tag)
+    if not m or not tag[m.end():].startswith(close.name):
+        return None
+    other = 'in' if close.name != 'in' else 'if'
+    return src[:close.start] + tag[:m.end()] + other + tag[m.end() + len(close.name):] + src[close.end:]
+
+
+def check_structural(ctx, K, body, rng):
+    ps = []
+    for sx in printer.SYNTAXES:
+        ps.append(('%s/0' % sx, printer.print_template(body, sx)))
+        ps.append(('%s/1' % sx, printer.print_template(body, sx, rng)))
+    k = rng.randrange(64)
+    for which in STRUCT_MUTATIONS:
+        printings = []
+        for label, p in ps:
+            m = structural_mutant(p, which, k)
+            if m is None:
+                break
+            printings.append((label, p.syntax, m))
+        if len(printings) != len(ps):
+            continue
+        ctx.case(('structural', which, k, tast.to_obj(body)))
+        ctx.count('mutant_programs')
+        ctx.table('mutation classes', which)
+        res = [(lab, sx, src) + cook(K, sx, src) for lab, sx, src in printings]
+        ctx.count('disagreements_checked', len(res) - 1)
+        acc = [r for r in res if r[3] is not None]
+        rej = [r for r in res if r[3] is None]
+        for r in rej:
+            ctx.table('mutant rejections', '%s:%s:%s' % (which, r[1], r[4][0]))
+        if acc and rej:
+            problems = [{'kind': 'accept/reject', 'labels': sorted(r[0] for r in acc),
+                         'what': 'mutant (%s) accepted by %s, rejected by %s (%s)' % (
+                             which, sorted(r[0] for r in acc), sorted(r[0] for r in rej),
+                             rej[0][4][1][:160])}]
+            report(ctx, K, 'mutant', None, printings, problems, extra={'mutation': which})
+        elif acc:
+            ctx.count('mutant accepted by all front ends (C06 business)')
+            ctx.table('mutants accepted by all', which)
+
+
 # ---------------------------------------------------------------- run
 def watch_anchors(reach, K):
     from DocumentTemplate import DT_HTML
@@ -367,6 +474,8 @@ def run(ctx, spec):
         check_ast(ctx, K, body, rng, want_sample=(i in (1, 7) and ctx.shard < 3))
         if i % 8 == 5:
             check_mutants(ctx, K, body, rng)
+        if i % 8 == 2 and not printer.printable(body):
+            check_structural(ctx, K, body, rng)
     # entities: the whole modifier space, sharded by index
     seqs = entity_cases(ctx.tier)
     for j, mods in enumerate(seqs):
